@@ -130,6 +130,14 @@ def verify_function(world, qual, timeout_ms=10000):
             solve_one(ob, timeout_ms * 3)
             ob.note = (ob.note or '') + ' (retry after %.1fs undecided)' % first
             ob.seconds += first
+    # reachability covers are existential: a loop body / the precondition must be reachable on SOME path through the function
+    reach = {}
+    for ob in ex.obls:
+        if ob.kind == 'cover':
+            reach[ob.name] = reach.get(ob.name, False) or ob.verdict == 'proved'
+    for ob in ex.obls:
+        if ob.kind == 'cover' and ob.verdict != 'proved' and reach.get(ob.name):
+            ob.verdict, ob.note = 'proved', 'reachable on another path through the function'
     for ob in ex.obls:
         d = {'name': ob.name, 'kind': ob.kind, 'verdict': ob.verdict, 'backend': ob.backend,
              'seconds': round(ob.seconds, 4), 'detail': ob.detail, 'model': ob.model, 'note': ob.note}
